@@ -91,6 +91,13 @@ def main():
     with ThreadPoolExecutor(6) as ex:
         list(ex.map(stimuli.corpus_sets, corpus_rt.QUICK_REPRS_FIXED + rot))
     log(f"TLC stimuli ready {time.time() - t0:.1f}s")
+    import models
+    for m in models.MODELS:
+        r = models.run_model(m, "quick")
+        log(f"design-level model {m}: {r['states']} states ok")
+    for n in models.NEGATIVE:
+        models.run_model(None, "quick", negative=n)
+        log(f"named deviation {n}: found by TLC")
     binding_selftest()
     log(f"setup done in {time.time() - t0:.1f}s")
 
